@@ -595,6 +595,22 @@ fn main() {
     quiet_panics();
     let args = parse_args();
     let table = structured();
+    if let Some(words) = args.extra.get("probe") {
+        // debugging aid: --probe 0b3f43ff,8b3f63ff prints what the lifter returns for each word
+        for w in words.split(',') {
+            let word = u32::from_str_radix(w.trim_start_matches("0x"), 16).unwrap();
+            let bytes = word.to_le_bytes().to_vec();
+            match observe(|| AArch64::new().translate_block(&bytes, 0x1000, &Options::new())) {
+                Obs::Ok(b) => {
+                    let ops: Vec<String> = b.instructions().iter().flat_map(|(_, g)| g.blocks().iter().flat_map(|bl| bl.instructions().iter().map(|i| format!("{}", i.operation())).collect::<Vec<_>>()).collect::<Vec<_>>()).collect();
+                    println!("{:08x}: {{{}}} -> {:?}", word, ops.join("; "), b.successors().iter().map(|(a, c)| format!("{:#x}{}", a, c.as_ref().map(|e| format!(" if {}", e)).unwrap_or_default())).collect::<Vec<_>>());
+                }
+                Obs::Err(k) => println!("{:08x}: Err {}", word, k),
+                Obs::Panic => println!("{:08x}: PANIC", word),
+            }
+        }
+        return;
+    }
     if args.extra.contains_key("count") {
         println!("{}", table.len());
         return;
